@@ -1,11 +1,12 @@
 """C19 - rebuild never writes outside the destination, whatever the metafile says."""
+import contextlib
 import os
 
 from hypothesis import strategies as st
 
 from vf import sandbox, target
 from vf.engine import Outcome, Violation
-from vf.instr import listdir
+from vf.instr import faultfs, listdir
 from vf.ref import bencode, hashing
 
 ID = "C19"
@@ -16,7 +17,7 @@ RULE = ("Cases: reference-encoded v1 / v2 / hybrid metafile whose info.name and 
         "candidate files with the matching base name, size and content in the search directory so the copy is attempted. The destination "
         "sits 8 levels deep in the per-case sandbox so every '..' chain and every absolute path stays inside scratch. Oracle: the "
         "snapshot (names, types, sizes, digests) of the sandbox minus the destination is identical before and after "
-        "Assembler(...).assemble_torrents(); raising or skipping is fine. Non-trivial: some component is hostile and a candidate with the "
+        "Assembler(...).assemble_torrents(); raising or skipping is fine. In a quarter of the cases the k-th filesystem operation of the rebuild (k drawn 0..40) fails with ENOSPC, so that error and clean-up paths run too. Non-trivial: some component is hostile and a candidate with the "
         "file's base name and size exists (a copy is attempted unless refused). Distinct = distinct canonical case JSON.")
 ASSUMPTIONS = [
     "absolute path elements point into the per-case sandbox (nothing outside scratch can be touched by a failing run)",
@@ -57,7 +58,9 @@ def strategy(tier):
             files[1] = {"path": [draw(st.sampled_from([".", ""]))] + list(files[0]["path"]), "size": files[0]["size"] + 16384, "seed": files[0]["seed"] + 1}
         name = draw(st.one_of(comp(), st.sampled_from(BENIGN), st.lists(st.just(".."), min_size=1, max_size=6).map("/".join)))
         return {"version": version, "name": name, "single": single, "files": files, "P": 16384,
-                "order": draw(st.sampled_from([0, 1, 2])), "cwd_root": draw(st.sampled_from([False, False, True]))}
+                "order": draw(st.sampled_from([0, 1, 2])), "cwd_root": draw(st.sampled_from([False, False, True])),
+                # the destination disk fills up: the k-th filesystem operation of the rebuild fails with ENOSPC (cleanup paths run)
+                "diskfull": draw(st.one_of(st.none(), st.none(), st.none(), st.integers(0, 40)))}
     return case()
 
 
@@ -202,8 +205,13 @@ def run_case(case):
         old_cwd = os.getcwd()
         if case.get("cwd_root"):
             os.chdir("/")       # services and containers start there; path normalisation clamps '..' at the root
+        fs = None
         try:
-            with target.quiet(), listdir.ListdirOrder(case["order"]):
+            with contextlib.ExitStack() as stack:
+                stack.enter_context(target.quiet())
+                stack.enter_context(listdir.ListdirOrder(case["order"]))
+                if case.get("diskfull") is not None:
+                    fs = stack.enter_context(faultfs.FaultFS(scr, plan=(case["diskfull"], "err:ENOSPC")))
                 target.rebuild.Assembler([mf], [search], dest).assemble_torrents()
         except Exception as e:  # noqa: BLE001 - refusing is allowed
             exc = e
@@ -218,11 +226,15 @@ def run_case(case):
             classes.append("hostile-component")
         if exc is not None:
             classes.append("raised:" + type(exc).__name__)
+        if fs is not None and fs.fired:
+            classes.append("ENOSPC-at-" + fs.trace[case["diskfull"]][0])
         inside = [p for p, c in sandbox.snapdiff(before, after) if p.startswith(destrel + "/")]
         if inside:
             classes.append("wrote-inside-dest")
         if diff:
             where = "name" if is_hostile(case["name"]) else "path"
+            if fs is not None and fs.fired:
+                where = "cleanup-after-ENOSPC"
             return Outcome(Violation("C19:v%d:%s:escape-via-%s" % (case["version"], "single" if case["single"] else "multi", where),
                                      "rebuild %s %s outside the destination (%d changes outside)" % (diff[0][1], diff[0][0], len(diff))), True, classes)
     return Outcome(None, hostile and attempted, classes)
